@@ -24,7 +24,7 @@ pub fn profile() -> Profile {
         id: "C05",
         phase: "history",
         checks: Checks { read: true, versions: true, load_parts: true, ..Default::default() },
-        gen: GenParams { nkeys: 3, ts_span: 4, metas: META_POOL_ALL, max_ops: 24, w_write: 60, w_delete: 6, w_switch: 10, w_wait: 8, w_reopen: 8, vlen: VlenGen::Thresholds, fills: 3, ..Default::default() },
+        gen: GenParams { nkeys: 3, ts_span: 4, metas: META_POOL_ALL, max_ops: 24, w_write: 60, w_delete: 6, w_switch: 10, w_wait: 8, w_reopen: 8, vlen: VlenGen::ThresholdsBig, fills: 4, ..Default::default() },
         keylens: C05_KEYLENS,
         short_defer: false,
         nt: nt_roundtrip,
@@ -47,7 +47,7 @@ pub struct CorruptCase {
 }
 
 pub fn corrupt_strategy() -> BoxedStrategy<CorruptCase> {
-    let gen = GenParams { nkeys: 3, ts_span: 4, metas: 3, max_ops: 16, w_write: 70, w_delete: 8, w_switch: 14, w_wait: 8, w_reopen: 0, vlen: VlenGen::Thresholds, fills: 3, ..Default::default() };
+    let gen = GenParams { nkeys: 3, ts_span: 4, metas: 3, max_ops: 16, w_write: 70, w_delete: 8, w_switch: 14, w_wait: 8, w_reopen: 0, vlen: VlenGen::ThresholdsBig, fills: 4, ..Default::default() };
     let cfg = (cfg_strategy(C05_KEYLENS, false), any::<bool>(), prop::bool::weighted(0.2)).prop_map(|(mut c, v, ig)| {
         c.validate_data = v;
         c.ignore_corrupted = ig;
@@ -321,7 +321,7 @@ pub fn run(ctx: &RunCtx) -> PropResult {
     PropResult {
         report,
         level: "fault_enumeration",
-        rule: "(round trip) histories whose value lengths are centred on the write-path thresholds (4096 - header - meta +-2, 4096 +-2, 81920 - header - meta +-2, 81920 +-2), plus 0..2, 3..6000 and 200000 bytes, three fill kinds (pseudo-random, all zero, the record magic pattern), a 7-entry metadata pool (empty, binary, empty and non-ASCII names, 700-byte value); read, read_with, Entry::load, Entry::load_data + load_meta compared byte-for-byte with the model after every step with the index in memory, on disk and regenerated, on both runtime flavours; an enumerated phase writes every 7th (quick) / every (thorough) length 0..8300 and the neighbourhood of both thresholds. (corruption) a generated history, then a stored record chosen through the harness's own blob parser, a position in its data region and an XOR burst of at most 32 bits (<=4 contiguous bytes); applied with the storage open, or closed then reopened with index files kept / removed, data validation on/off, corrupted blobs quarantined/ignored. Oracle: every query whose answer needs the altered data returns Err (CRC32C detects every burst <=32 bits, so there is no probabilistic slack) or the blob was dropped by init with validation on (then answers equal the model without that blob); every other query returns exactly the model's answer; a following write succeeds. Non-trivial: round trip = a threshold-relative length was written; corruption = a query touched the altered record or the blob was dropped. distinct = FNV hash of the serialized case.".into(),
+        rule: "(round trip) histories whose value lengths are centred on the write-path thresholds (4096 - header - meta +-2, 4096 +-2, 81920 - header - meta +-2, 81920 +-2), plus 0..2, 3..6000, 200000 bytes and (5 % of the writes) 1 MiB - 1 / 1 MiB / 1 MiB + 517 / 3 MiB + 1, four fill kinds (pseudo-random, all zero, the record magic pattern, and pseudo-random with a forged tail so that the value's CRC32C is exactly 0 - the checksum of an empty value), a 7-entry metadata pool (empty, binary, empty and non-ASCII names, 700-byte value); read, read_with, Entry::load, Entry::load_data + load_meta compared byte-for-byte with the model after every step with the index in memory, on disk and regenerated, on both runtime flavours; an enumerated phase writes every 7th (quick) / every (thorough) length 0..8300 and the neighbourhood of both thresholds. (corruption) a generated history, then a stored record chosen through the harness's own blob parser, a position in its data region and an XOR burst of at most 32 bits (<=4 contiguous bytes); applied with the storage open, or closed then reopened with index files kept / removed, data validation on/off, corrupted blobs quarantined/ignored. Oracle: every query whose answer needs the altered data returns Err (CRC32C detects every burst <=32 bits, so there is no probabilistic slack) or the blob was dropped by init with validation on (then answers equal the model without that blob); every other query returns exactly the model's answer; a following write succeeds. Non-trivial: round trip = a threshold-relative length was written; corruption = a query touched the altered record or the blob was dropped. distinct = FNV hash of the serialized case.".into(),
         assumptions: common_assumptions(),
     }
 }
